@@ -90,6 +90,10 @@ impl Kind {
             Kind::ClearEmpty => "mutate { c16.P { id:$id es:null } }",
         }
     }
+    /// does the mutation write the row itself (a reference change re-signs it; clearing nothing does not)
+    pub fn writes_row(&self) -> bool {
+        !matches!(self, Kind::ClearEmpty)
+    }
     /// parts of the row this kind assigns (what the serial result owes to it)
     pub fn owns(&self) -> &'static [&'static str] {
         match self {
@@ -664,7 +668,10 @@ pub fn judge(
                     // read the row before the owner's batch was committed and written it back whole
                     match owners.last() {
                         Some(o) => {
-                            let w = acked.iter().copied().find(|w| *w > *o && r[*w] <= b[*o]);
+                            // later acknowledged mutations that had read the row before the owner's commit; one
+                            // that writes the row is the culprit, a mutation that assigns nothing only if no other is
+                            let stale: Vec<usize> = acked.iter().copied().filter(|w| *w > *o && r[*w] <= b[*o]).collect();
+                            let w = stale.iter().copied().find(|w| kinds[*w].writes_row()).or(stale.first().copied());
                             match w {
                                 Some(w) => lost.entry((*o, w)).or_default().push(part),
                                 None => findings.push(unexplained(part, "no later stale writer")),
